@@ -3,9 +3,33 @@
 # the tree, and the rdsquashfs -x printer as the inverse direction.
 FUNCTIONS = [
     "decode (filemap_xattr.c) + hex_decode + base64_decode (composition against spec/xattr_value_spec.h)",
+    "xattr_apply_map_file", "apply_xattrs", "apply_dfs", "xattr_from_path",
+    "dump_xattrs", "is_printable", "print_hex",
 ]
-TRUSTED = []
-ASSUMPTIONS = []
+TRUSTED = [
+    "w12: spec/xattr_value_spec.h - the value text format of getfattr --dump (gensquashfs.1 names it as the --xattr-file format), "
+    "written from getfattr(1)/setfattr(1); three verdicts OK / MALFORMED / UNSPEC",
+    "w12: stdout capture in w12_dump_value: printf/fputs/fputc/putchar/puts/fwrite append their bytes; %s %c %02X %03o have their "
+    "C standard meaning; stdout != stderr",
+    "w12: sqfs_xattr_writer_begin/add/add_kv/end, fstree_get_path, selinux_relable_node, sqfs_xattr_reader_read_all, "
+    "sqfs_inode_get_xattr_index, sqfs_xattr_list_free: contract stubs that record and check their arguments and may fail",
+    "w12: llistxattr/lgetxattr per xattr(7): size query then fill, the second answer may differ or fail, the name list is a sequence "
+    "of NUL-terminated names",
+    "w12: get_full_path / xattr_from_path are replaced by contract stubs inside w12_apply_dfs (goto-instrument --replace-calls); "
+    "xattr_from_path has its own harness, get_full_path has none",
+]
+ASSUMPTIONS = [
+    "w12: the printer -> parser inverse pair meets in the spec function: printer output is judged by spec_xattr_value "
+    "(w12_dump_value), the parser is compared with the same function (w12_xattr_value); the two real functions are never chained",
+    "w12: value texts the documents leave open (XV_UNSPEC: bare text with backslash or quote, other escapes, octal > \\377, "
+    "URL-safe / unpadded base64) get memory safety only; decode accepts them the way setfattr does",
+    "w12: bounded: value text <= 5 bytes fully symbolic, hex <= 8, base64 <= 10, quoted <= 8 (thorough 6/12/14/10); printer values "
+    "<= 3 (thorough 4) bytes over the full byte alphabet incl. NUL; maps <= 2 patterns x <= 2 entries, paths <= 3 bytes; "
+    "apply_dfs on trees of <= 2 nodes (root, root{a}); xattr lists <= 2 names",
+    "w12: keys: only the value direction is an inverse pair; a key with '=' or a non-printable key cannot be read back "
+    "(dump_xattrs prints a non-printable key as 0x.. without the '=' separator - observation)",
+    "w12: get_full_path (prefix join, realloc/memmove) and the line loop of xattr_open_map_file have no harness",
+]
 
 CT = {"__NO_CTYPE": None}
 GSRC = ["bin/gensquashfs/src"]
@@ -40,11 +64,17 @@ HARNESSES = [
                 for np, a, b, t in ((1, 1, 0, "quick"), (2, 1, 1, "quick"), (2, 2, 1, "quick"), (2, 0, 2, "quick"),
                                     (2, 2, 2, "thorough"), (1, 2, 0, "thorough"))] +
                [dict(id="abs0_p2_e11", defines={"NPAT": 2, "NENT0": 1, "NENT1": 1, "ABS0": 1}, tier="quick")]),
-    dict(name="w12_apply_dfs", file="w12_apply_dfs.c", label="bounded(tree shapes <= 4 nodes)",
+    dict(name="w12_apply_dfs", file="w12_apply_dfs.c", label="bounded(tree shapes <= 2 nodes)",
          include_dirs=GSRC, nochecks=["--conversion-check"], timeout=300, unwind=6, native=False,
          # allocation failure of the path strings is one of the logged calls (it fails when chosen)
          flags=["--no-malloc-may-fail", "--memory-leak-check"],
          pre_instrument_flags=["--replace-calls", "get_full_path:stub_get_full_path",
                                "--replace-calls", "xattr_from_path:stub_xattr_from_path"],
-         cases=[dict(id="shape%d" % k, defines={"SHAPE": k}, tier="quick") for k in (0, 1, 2)]),
+         cases=[dict(id="shape%d" % k, defines={"SHAPE": k}, unwindset=["apply_dfs:%d" % d, "apply_dfs.0:3"], tier="quick")
+                for k, d in ((0, 2), (3, 3))]),
+    dict(name="w12_xattr_from_path", file="w12_xattr_from_path.c", label="bounded(names <= 2 of <= 2 bytes, values <= 2 bytes)",
+         include_dirs=GSRC, nochecks=["--conversion-check"], timeout=300, unwind=8,
+         # allocation failure is not injected here (the failing call is chosen among the syscalls and the writer)
+         flags=["--no-malloc-may-fail", "--memory-leak-check"],
+         cases=[dict(id="names%d" % n, defines={"NNAMES": n}, tier="quick") for n in (1, 2)]),
 ]
